@@ -110,13 +110,19 @@ package engine
 //@   modifies en.st, en.ca, en.pe
 //@   ensures result == nil ==> beforeVm(en)
 
-// The optional entry function runs in a throw-away VM (assumed; see H24 in DESIGN.md).
+// The optional entry function runs in a throw-away VM that shares the
+// session's state and cache. While TERMINATE is set the entry function is not
+// called (C06); the engine's own VM is not involved, but Run's frame is too
+// coarse to show that, so that part is a postulate.
 //@ func (*DefaultEngine).runFirst
-//@   assumed
-//@   requires en != nil
+//@   serves C06
+//@   requires engOk(en)
+//@   requires[C08] vm.lockstep(en.vm) && vm.depth(en.st) <= state.MaxLevel
 //@   modifies everything except f:engine.Config., f:engine.DefaultEngine.vm, f:engine.DefaultEngine.st, f:engine.DefaultEngine.ca, f:engine.DefaultEngine.rs, f:engine.DefaultEngine.initd, f:engine.DefaultEngine.first, f:engine.DefaultEngine.pe, f:engine.DefaultEngine.dbg, f:engine.DefaultEngine.regexCount, f:state.State.BitSize, f:state.State.Flags, f:render.Sizer.outputSize, count(extcalls), count(codegets), count(written)
-//@   ensures result1 == nil ==> engOk(en)
-//@   ensures en.first == nil ==> result0 && result1 == nil
+//@   postulate result1 == nil ==> engOk(en)
+//@   ensures @nofirst en.first == nil ==> result0 && result1 == nil
+//@   ensures[C06] @blocked old(fl(en, state.FLAG_TERMINATE)) ==> count(extcalls) == old(count(extcalls)) && count(codegets) == old(count(codegets))
+//@   ensures[C06] @held en.first != nil && old(fl(en, state.FLAG_TERMINATE)) ==> fl(en, state.FLAG_TERMINATE)
 
 //@ func (*DefaultEngine).empty
 //@   requires engOk(en)
